@@ -60,8 +60,153 @@ def nodes_of(case):
 # implementation side
 
 
+class Shadow:
+    """links of the nodes by number (harness-side reference for structural edits)"""
+
+    def __init__(self, kind, tree):
+        self.kind = kind
+        self.par = {}
+        self.kids = {}
+
+        def go(t, parent):
+            ks = t[1] if kind == "rose" else [t[1], t[2]]
+            self.par[t[0]] = parent
+            self.kids[t[0]] = [None if k is None else k[0] for k in ks]
+            for k in ks:
+                if k is not None:
+                    go(k, t[0])
+        go(tree, None)
+
+    def anc(self, x):
+        out = []
+        while self.par[x] is not None:
+            x = self.par[x]
+            out.append(x)
+        return out
+
+    def root(self, x):
+        a = self.anc(x)
+        return a[-1] if a else x
+
+    def depth(self, x):
+        return 1 + len(self.anc(x))
+
+    def sub(self, x):
+        out = [x]
+        for k in self.kids[x]:
+            if k is not None:
+                out.extend(self.sub(k))
+        return out
+
+    def height(self, x):
+        return 1 + max([self.height(k) for k in self.kids[x] if k is not None], default=0)
+
+    def to_tree(self, x):
+        if self.kind == "rose":
+            return [x, [self.to_tree(k) for k in self.kids[x]]]
+        l, r = self.kids[x]
+        return [x, None if l is None else self.to_tree(l), None if r is None else self.to_tree(r)]
+
+    def _unlink(self, x):
+        p = self.par[x]
+        if p is not None:
+            if self.kind == "rose":
+                self.kids[p].remove(x)
+            else:
+                self.kids[p][self.kids[p].index(x)] = None
+        self.par[x] = None
+
+    def _names_ok(self, p, names):
+        if names is None:
+            return True
+        ns = [names[k] for k in self.kids[p] if k is not None]
+        return len(set(ns)) == len(ns)
+
+    def apply(self, e, names=None):
+        """performs the edit; False (state possibly changed: callers work on a copy) when it is not a legal call"""
+        k = e[0]
+        if k == "read":
+            return e[2] in self.par
+        if k == "move":                       # x.parent = p   (also >> / << / append)
+            x, p = e[1], e[2]
+            if x not in self.par or p not in self.par or x == p or x in self.anc(p):
+                return False
+            if self.kind == "bin":
+                if self.par[x] == p:
+                    # leaves its slot and takes the first free one
+                    self._unlink(x)
+                else:
+                    if None not in self.kids[p]:
+                        return False
+                    self._unlink(x)
+                self.kids[p][self.kids[p].index(None)] = x
+            else:
+                self._unlink(x)
+                self.kids[p].append(x)
+            self.par[x] = p
+            return self._names_ok(p, names)
+        if k == "detach":                     # x.parent = None
+            if e[1] not in self.par:
+                return False
+            self._unlink(e[1])
+            return True
+        if k == "delchildren":                # del p.children
+            if e[1] not in self.par:
+                return False
+            for c in list(self.kids[e[1]]):
+                if c is not None:
+                    self._unlink(c)
+            return True
+        if k == "sort":                       # p.sort(key=node number, reverse=)
+            if self.kind != "rose" or e[1] not in self.par:
+                return False
+            self.kids[e[1]].sort(reverse=bool(e[2]))
+            return True
+        if k == "setchildren":                # p.children = [...]
+            p, new = e[1], list(e[2])
+            real = [c for c in new if c is not None]
+            if p not in self.par or len(set(real)) != len(real) or any(c not in self.par for c in real):
+                return False
+            if p in real or any(c in self.anc(p) for c in real):
+                return False
+            if self.kind == "bin" and len(new) != 2:
+                return False
+            if self.kind == "rose" and None in new:
+                return False
+            for c in list(self.kids[p]):
+                if c is not None:
+                    self._unlink(c)
+            for c in real:
+                self._unlink(c)
+                self.par[c] = p
+            self.kids[p] = new if self.kind == "rose" else list(new)
+            return self._names_ok(p, names)
+        return False
+
+
+def phase_trees(case):
+    """recomputes the 'tree' of every phase from the edits; None when an edit is not a legal call"""
+    sh = Shadow(case["kind"], case["tree"])
+    names = None if case["cls"] in ("BaseNode", "SubBase") else _node_names(case)
+    out = []
+    for ph in case.get("phases", []):
+        for e in ph["edits"]:
+            if not sh.apply(e, names):
+                return None
+        r = ph["root"]
+        if r not in sh.par or sh.par[r] is not None:
+            return None
+        t = sh.to_tree(r)
+        inside = set(sh.sub(r))
+        if any(run["start"] not in inside for run in ph["runs"]):
+            return None
+        out.append(t)
+    return out
+
+
 ROSE_BUILDS = ["ctor_children", "ctor_parent", "setter_list_reused", "setter_tuple", "setter_reorder",
-               "parent_setter", "rshift", "lshift", "append", "extend_reused"]
+               "parent_setter", "rshift", "lshift", "append", "extend_reused",
+               "regroup_kids_first", "regroup_kids_last", "regroup_interleaved", "regroup_alternate"]
 BIN_BUILDS = ["ctor_lr", "ctor_children", "setter_list_reused", "setter_tuple", "setter_reorder", "lr_setters",
               "parent_setter", "rshift", "lshift", "append", "extend_reused"]
 VALUE_EQ = ("EqNode", "EqBase", "EqBinary")     # classes whose instances compare equal by name / key
@@ -104,7 +249,7 @@ def _build(case, classes, reg):
     def kw(i):
         d = dict(attrs.get(str(i), {})) if by_kw else {}
         if case["cls"] == "EqBase":
-            d["key"] = i % 3
+            d["key"] = names[i]            # repeats across the tree, never among the children of one node
         return d
 
     def new(i, **links):
@@ -171,7 +316,31 @@ def _build(case, classes, reg):
                 if k is not None:
                     mk(k)
         mk(case["tree"])
-        if case["tree"][0] % 2:
+        if style.startswith("regroup"):
+            # top-down: a node first receives its children AND grandchildren in one flat list, then every child
+            # takes its own children away from it with one assignment (several nodes of one donor, in order)
+            def flat(t):
+                ks = kids_of(t)
+                gs = [[g for g in kids_of(k)] for k in ks]
+                if style == "regroup_kids_first":
+                    seq = ks + [g for l in gs for g in l]
+                elif style == "regroup_kids_last":
+                    seq = [g for l in gs for g in l] + ks
+                elif style == "regroup_interleaved":
+                    seq = [x for k, l in zip(ks, gs) for x in [k] + l]
+                else:
+                    allg = [g for l in gs for g in l]
+                    seq = []
+                    for a in range(max(len(ks), len(allg))):
+                        seq += ([allg[a]] if a < len(allg) else []) + ([ks[a]] if a < len(ks) else [])
+                return [reg[x[0]] for x in seq]
+            root_t = order[0]
+            reg[root_t[0]].children = flat(root_t)
+            for t in order[1:]:
+                # t's children currently hang under t's parent (the donor)
+                reg[t[0]].children = flat(t)
+            order = []
+        elif case["tree"][0] % 2:
             order.reverse()
         buf = []                       # ONE caller-owned list object, re-used for every assignment
         for t in order:
@@ -300,8 +469,7 @@ def run_impl(prop, case):
         return {i: (None if n.parent is None else nm(n.parent),
                     [None if c is None else nm(c) for c in n.children]) for i, n in reg.items()}
 
-    before = structure()
-    built_ok = before == _intended(case)
+    built_ok = structure() == _intended(case)
 
     def pred(tab, ptype):
         """condition as a function of node identity; `ptype` = what it returns:
@@ -402,22 +570,82 @@ def run_impl(prop, case):
         b = {key: read(key, got[n + k]) for k, key in enumerate(OBS_KEYS)}
         return a, b
 
-    out = []
-    for run in case["runs"]:
-        mk = makers(run)
-        o = eager(mk)
-        alts = []
-        a, b = interleaved(mk)
-        for mode, cur in (("late", late(mk)), ("interleaved", a), ("interleaved-twin", b), ("again", eager(mk))):
-            if cur != {k: o[k] for k in OBS_KEYS} and all(cur != {k: x[k] for k in OBS_KEYS} for x in alts):
-                alts.append(dict(cur, mode=mode))
-        o["alts"] = alts
-        out.append(o)
-    after = structure()
-    if after != before:
-        out[0]["mutated"] = sorted(i for i in before if before[i] != after[i])
-    if not built_ok:
-        out[0]["misbuilt"] = True       # the construction calls did not produce the intended tree
+    def do_runs(runs, first_flags):
+        before = structure()
+        res = []
+        for run in runs:
+            mk = makers(run)
+            o = eager(mk)
+            alts = []
+            a, b = interleaved(mk)
+            for mode, cur in (("late", late(mk)), ("interleaved", a), ("interleaved-twin", b), ("again", eager(mk))):
+                if cur != {k: o[k] for k in OBS_KEYS} and all(cur != {k: x[k] for k in OBS_KEYS} for x in alts):
+                    alts.append(dict(cur, mode=mode))
+            o["alts"] = alts
+            res.append(o)
+        after = structure()
+        if res:
+            if after != before:
+                res[0]["mutated"] = sorted(i for i in before if before[i] != after[i])
+            res[0].update(first_flags)
+        return res
+
+    def do_edit(e, sh):
+        k = e[0]
+        if k == "read":
+            v = getattr(reg[e[2]], e[1])
+            if e[1] == "depth":
+                return v == sh.depth(e[2])
+            if e[1] == "root":
+                return v is reg[sh.root(e[2])]
+            if e[1] == "max_depth" and case["cls"] not in VALUE_EQ:
+                # (value-equality classes: the unchanged `descendants` drops nodes that are == self, so max_depth
+                #  can be too small there - reported to the coordinator, not checked here)
+                return v == sh.height(sh.root(e[2]))
+            if not isinstance(v, (bool, int, str)) and v is not None:
+                list(v)
+            return True
+        if k == "move":
+            how = e[3] if len(e) > 3 else "parent"
+            x, p_ = reg[e[1]], reg[e[2]]
+            if how == "rshift":
+                p_ >> x
+            elif how == "lshift":
+                x << p_
+            elif how == "append":
+                p_.append(x)
+            else:
+                x.parent = p_
+        elif k == "detach":
+            reg[e[1]].parent = None
+        elif k == "delchildren":
+            del reg[e[1]].children
+        elif k == "sort":
+            reg[e[1]].sort(key=lambda n: num[id(n)], reverse=bool(e[2]))
+        elif k == "setchildren":
+            new = [None if c is None else reg[c] for c in e[2]]
+            if len(e) > 3 and e[3] == "left":
+                reg[e[1]].left = new[0]
+            elif len(e) > 3 and e[3] == "right":
+                reg[e[1]].right = new[1]
+            else:
+                reg[e[1]].children = tuple(new) if (len(e) > 3 and e[3] == "tuple") else new
+        return True
+
+    out = [do_runs(case["runs"], {} if built_ok else {"misbuilt": True})]
+    sh = Shadow(case["kind"], case["tree"])
+    for ph in case.get("phases", []):
+        flags = {}
+        for e in ph["edits"]:
+            ok = do_edit(e, sh)
+            sh.apply(e)
+            if not ok:
+                flags["misread"] = e      # depth / root / max_depth read between the edits was wrong
+        want = Shadow(case["kind"], ph["tree"])
+        got = structure()
+        if any(got[i] != (want.par[i], want.kids[i]) for i in want.par):
+            flags["misbuilt"] = True    # the edits did not produce the intended links
+        out.append(do_runs(ph["runs"], flags))
     return out
 
 
@@ -443,25 +671,35 @@ def _cll(xss):
     return clist(_cl(xs) for xs in xss)
 
 
-def emit(prop, case, obs):
-    pos = {i: p for i, _, p, _ in nodes_of(case)}
+def _emit_one(kind, tree, runs_, obs, poison):
+    pos = {i: p for i, _, p, _ in (rose_nodes(tree) if kind == "rose" else bin_nodes(tree))}
     runs = []
-    assert len(obs) == len(case["runs"])
-    mutated = any(o.get("mutated") or o.get("misbuilt") for o in obs)
-    for run, o0 in zip(case["runs"], obs):
+    assert len(obs) == len(runs_)
+    for run, o0 in zip(runs_, obs):
         # every observation mode (eager; after list(iterator); interleaved generators; second pass) must
         # equal the model and satisfy the property: a mode that differs from the eager one is emitted as
         # an additional run with the same arguments
         for o in [o0] + list(o0.get("alts", [])):
-            # an input tree whose links changed during the iterations is reported through a foreign number
-            pre = list(o["pre"]) + ([FOREIGN] if mutated else [])
+            # an input tree whose links are not the intended ones / changed during the iterations / gave a wrong
+            # depth or root when read is reported through a foreign number
+            pre = list(o["pre"]) + ([FOREIGN] if poison else [])
             io = "(IO %s %s %s %s %s %s)" % (_cl(pre), _cl(o["post"]), _cl(o["lo"]), _cl(o["zz"]),
                                              _cll(o["log"]), _cll(o["zzg"]))
             runs.append("IR %s %s %s %d %s %s" % (_cl(pos[run["start"]]), copt(run["f"], _cl), copt(run["s"], _cl),
                                                    run["m"], io, _cl(o["in"])))
-    if case["kind"] == "rose":
-        return "CRose (%s) %s" % (_ctree(case["tree"]), clist(runs))
-    return "CBin (%s) %s" % (_cbtree(case["tree"]), clist(runs))
+    if kind == "rose":
+        return "CRose (%s) %s" % (_ctree(tree), clist(runs))
+    return "CBin (%s) %s" % (_cbtree(tree), clist(runs))
+
+
+def _flagged(ph_obs):
+    return any(o.get("mutated") or o.get("misbuilt") or o.get("misread") for o in ph_obs)
+
+
+def emit(prop, case, obs):
+    phases = [(case["tree"], case["runs"])] + [(ph["tree"], ph["runs"]) for ph in case.get("phases", [])]
+    assert len(obs) == len(phases)
+    return clist(_emit_one(case["kind"], t, r, o, _flagged(o)) for (t, r), o in zip(phases, obs) if r)
 
 
 # ---------------------------------------------------------------------------------------------
@@ -708,6 +946,126 @@ def gen_attrs(rng, nodes):
     return out
 
 
+def builds_for(kind, cls):
+    # value-equality classes: the unchanged setters locate nodes with list.index / list.remove (by ==), so a child list
+    # must never hold two equal nodes, which the regroup styles (children and grandchildren in one list) would do
+    if kind == "bin":
+        return BIN_BUILDS
+    return [b for b in ROSE_BUILDS if not (cls in VALUE_EQ and b.startswith("regroup"))]
+
+
+READS = ["depth", "depth", "max_depth", "root", "node_path", "is_leaf", "siblings", "ancestors", "descendants"]
+
+
+def gen_edit(rng, sh, kind):
+    """one structural edit that is legal in the shadow state (None if none found)"""
+    ids = sorted(sh.par)
+    for _ in range(12):
+        r = rng.random()
+        if r < 0.45:
+            # move an inner node (or any node) up / down / sideways
+            inner = [x for x in ids if any(k is not None for k in sh.kids[x])]
+            x = rng.choice(inner if inner and rng.random() < 0.75 else ids)
+            cands = [p for p in ids if p != x and x not in sh.anc(p) and sh.root(p) == sh.root(ids[0] if ids[0] in sh.par else x)]
+            cands = [p for p in ids if p != x and x not in sh.anc(p)]
+            if kind == "bin":
+                cands = [p for p in cands if None in sh.kids[p] or sh.par[x] == p]
+            # prefer a different depth
+            diff = [p for p in cands if sh.depth(p) + 1 != sh.depth(x)]
+            if not cands:
+                continue
+            p = rng.choice(diff if diff and rng.random() < 0.8 else cands)
+            e = ["move", x, p, rng.choice(["parent", "rshift", "lshift", "append"])]
+        elif r < 0.6 and kind == "rose":
+            # one assignment that takes several children of ONE donor, in their order (first k / every other / all but
+            # the first), possibly keeping the recipient's own children
+            donors = [p for p in ids if len(sh.kids[p]) >= 3]
+            if not donors:
+                continue
+            d = rng.choice(donors)
+            ks = list(sh.kids[d])
+            pick = rng.choice([ks[:2], ks[:-1], ks[0::2], ks[1::2] if len(ks) >= 4 else ks[:2], ks[1:-1] + ks[:1]])
+            pick = [c for c in pick if c is not None]
+            if len(pick) < 2 and rng.random() < 0.8:
+                pick = ks[:2]
+            recips = [q for q in ids if q not in pick and not any(c in sh.anc(q) for c in pick)]
+            if not recips:
+                continue
+            q = rng.choice(recips)
+            own = [c for c in sh.kids[q] if c not in pick] if rng.random() < 0.5 else []
+            e = ["setchildren", q, (own + pick) if rng.random() < 0.5 else (pick + own), rng.choice(["list", "tuple"])]
+        elif r < 0.6:
+            p = rng.choice(ids)
+            side = rng.choice([0, 1])
+            cands = [x for x in ids if x != p and x not in sh.anc(p) and x not in sh.kids[p]] + [None]
+            x = rng.choice(cands)
+            new = list(sh.kids[p])
+            new[side] = x
+            e = ["setchildren", p, new, rng.choice(["list", "left" if side == 0 else "right"])]
+        elif r < 0.75:
+            x = rng.choice(ids)
+            if sh.par[x] is None:
+                continue
+            e = ["detach", x]
+        elif r < 0.83:
+            p = rng.choice(ids)
+            if not any(k is not None for k in sh.kids[p]):
+                continue
+            e = ["delchildren", p]
+        elif kind == "rose":
+            p = rng.choice([x for x in ids if len(sh.kids[x]) >= 2] or ids)
+            e = ["sort", p, rng.random() < 0.5]
+        else:
+            continue
+        return e
+    return None
+
+
+def add_history(rng, case, nphases, nruns):
+    """appends phases: groups of 1-3 edits (with reads of depth / root / ... in between), then runs on one of the
+    resulting trees (usually the one holding the original root, sometimes a detached / re-rooted part)"""
+    import copy
+    sh = Shadow(case["kind"], case["tree"])
+    names = None if case["cls"] in ("BaseNode", "SubBase") else _node_names(case)
+    case["phases"] = []
+    for _ in range(nphases):
+        edits = []
+        for _ in range(rng.randint(1, 3)):
+            for _ in range(rng.randint(0, 2)):
+                edits.append(["read", rng.choice(READS), rng.choice(sorted(sh.par))])
+            trial = None
+            for _ in range(6):
+                e = gen_edit(rng, sh, case["kind"])
+                if e is None:
+                    continue
+                t2 = copy.deepcopy(sh)
+                if t2.apply(e, names):
+                    trial = (e, t2)
+                    break
+            if trial is None:
+                break
+            edits.append(trial[0])
+            sh = trial[1]
+        if not any(e[0] != "read" for e in edits):
+            break
+        if rng.random() < 0.5:
+            edits.append(["read", "depth", rng.choice(sorted(sh.par))])
+        roots = sorted(x for x in sh.par if sh.par[x] is None)
+        main = sh.root(case["tree"][0])
+        big = [x for x in roots if len(sh.sub(x)) >= 2]
+        root = main if rng.random() < 0.7 or not big else rng.choice(big)
+        tree = sh.to_tree(root)
+        nodes = rose_nodes(tree) if case["kind"] == "rose" else bin_nodes(tree)
+        runs = [gen_run(rng, nodes) for _ in range(nruns)]
+        # make sure a depth limit is exercised after the edits
+        if all(r_["m"] == 0 for r_ in runs):
+            runs[0]["m"] = rng.randint(1, max(d for _, d, _, _ in nodes))
+        case["phases"].append({"edits": edits, "root": root, "tree": tree, "runs": runs})
+    if not case["phases"]:
+        case.pop("phases")
+    return case
+
+
 def _mk(kind, cls, tree, runs, stratum, build=None, attrs=None, astyle="kw"):
     c = {"kind": kind, "cls": cls, "tree": tree, "runs": runs, "stratum": stratum,
          "build": build or ("ctor_children" if kind == "rose" else "ctor_lr")}
@@ -728,7 +1086,8 @@ def exhaustive(rng, max_rose, max_bin, extra_random=2, per_case=4):
                 cls = ["Node", "BaseNode", "SubNode", "SubBase", "EqNode", "EqBase"][q % 6]
                 attrs = {str(i): {"depth": (i * 7 + q) % 5, "is_leaf": q % 2} for i, _, _, _ in nodes} if q % 3 == 0 else None
                 yield "exhaustive/rose%d" % n, _mk("rose", cls, tree, runs[j:j + per_case], "exhaustive",
-                                                   ROSE_BUILDS[q % len(ROSE_BUILDS)], attrs, "kw" if q % 2 else "set_attrs")
+                                                   builds_for("rose", cls)[q % len(builds_for("rose", cls))], attrs,
+                                                   "kw" if q % 2 else "set_attrs")
     for n in range(1, max_bin + 1):
         for sh in all_bin_shapes(n):
             tree = _number_bin(sh)
@@ -754,14 +1113,23 @@ def gen_case(rng, nruns=2):
         nodes = bin_nodes(tree)
         st = "bin-deep" if deep else "bin"
         cls = rng.choices(["BinaryNode", "SubBinary", "EqBinary"], [6, 2, 2])[0]
-        return _mk("bin", cls, tree, [gen_run(rng, nodes) for _ in range(nruns)], st, rng.choice(BIN_BUILDS),
-                   gen_attrs(rng, nodes) if rng.random() < 0.5 else None, rng.choice(["kw", "set_attrs"]))
+        c = _mk("bin", cls, tree, [gen_run(rng, nodes) for _ in range(nruns)], st, rng.choice(BIN_BUILDS),
+                gen_attrs(rng, nodes) if rng.random() < 0.5 else None, rng.choice(["kw", "set_attrs"]))
+        if len(nodes) >= 3 and rng.random() < 0.35:
+            add_history(rng, c, rng.randint(1, 2), nruns)
+        return c
     stratum = rng.choices(ROSE_STRATA, [8, 8, 8, 2, 2, 1])[0]
     tree = _number(gen_shape(rng, stratum), rng)
     nodes = rose_nodes(tree)
     cls = rng.choice(["Node", "Node", "BaseNode", "SubNode", "SubBase", "EqNode", "EqBase"])
-    return _mk("rose", cls, tree, [gen_run(rng, nodes) for _ in range(nruns)], stratum, rng.choice(ROSE_BUILDS),
-               gen_attrs(rng, nodes) if rng.random() < 0.5 else None, rng.choice(["kw", "set_attrs"]))
+    c = _mk("rose", cls, tree, [gen_run(rng, nodes) for _ in range(nruns)], stratum, rng.choice(builds_for("rose", cls)),
+            gen_attrs(rng, nodes) if rng.random() < 0.5 else None, rng.choice(["kw", "set_attrs"]))
+    if len(nodes) >= 3 and stratum != "verydeep" and rng.random() < 0.4:
+        add_history(rng, c, rng.randint(1, 2), nruns)
+        # the first traversal must look at depths, otherwise nothing could have been remembered
+        if "phases" in c and all(r_["m"] == 0 for r_ in c["runs"]):
+            c["runs"][0]["m"] = rng.randint(1, max(d for _, d, _, _ in nodes))
+    return c
 
 
 def corpus(prop):
@@ -786,6 +1154,24 @@ def corpus(prop):
         {"start": 0, "f": None, "s": [2], "m": 3},
         {"start": 4, "f": [5, 6], "s": None, "m": 3},
         {"start": 1, "f": None, "s": [3], "m": 0}], "corpus")))
+    # traverse, edit, traverse again: an inner node moves to another depth after its descendants' depths were read
+    t = [0, [[1, [[3, [[6, []]]], [4, []]]], [2, [[5, []]]]]]
+    c = _mk("rose", "Node", t, [{"start": 0, "f": None, "s": None, "m": 3}, {"start": 1, "f": None, "s": None, "m": 0}], "corpus")
+    c["phases"] = [
+        {"edits": [["read", "depth", 6], ["move", 1, 5, "parent"], ["read", "depth", 3]], "root": 0, "tree": None,
+         "runs": [{"start": 0, "f": None, "s": None, "m": 4}, {"start": 2, "f": None, "s": None, "m": 5}]},
+        {"edits": [["detach", 1], ["read", "depth", 6]], "root": 1, "tree": None,
+         "runs": [{"start": 1, "f": None, "s": None, "m": 2}, {"start": 3, "f": None, "s": None, "m": 2}]}]
+    out.append(("history-move-depth", _refresh(c)))
+    # one children assignment taking several children of one donor, in order / every other one
+    t = [0, [[1, [[3, []], [4, []], [5, []], [6, []], [7, []], [8, []]]], [2, []]]]
+    c = _mk("rose", "BaseNode", t, [{"start": 0, "f": None, "s": None, "m": 0}], "corpus")
+    c["phases"] = [
+        {"edits": [["setchildren", 2, [3, 4], "list"]], "root": 0, "tree": None,
+         "runs": [{"start": 0, "f": None, "s": None, "m": 0}]},
+        {"edits": [["setchildren", 0, [1, 2, 5, 7], "tuple"]], "root": 0, "tree": None,
+         "runs": [{"start": 0, "f": None, "s": None, "m": 2}]}]
+    out.append(("history-steal-children", _refresh(c)))
     return out
 
 
@@ -801,7 +1187,7 @@ def generate(prop, rng, tier):
         count = 4000
     for _ in range(count):
         c = gen_case(rng, nruns=2 if tier != "thorough" else 3)
-        yield f"{c['cls']}/{c['stratum']}/{c['build']}", c
+        yield f"{c['cls']}/{c['stratum']}/{c['build']}" + ("/history" if "phases" in c else ""), c
 
 
 # ---------------------------------------------------------------------------------------------
@@ -821,13 +1207,61 @@ def _remove_leaf(case, leaf):
     return go_r(case["tree"]) if case["kind"] == "rose" else go_b(case["tree"])
 
 
+def _refresh(c):
+    """recompute the phase trees of a modified history case; None if it is no longer a legal history"""
+    if not c.get("phases"):
+        c = dict(c)
+        c.pop("phases", None)
+        return c
+    trees = phase_trees(c)
+    if trees is None:
+        return None
+    c = dict(c)
+    c["phases"] = [dict(ph, tree=t) for ph, t in zip(c["phases"], trees)]
+    return c
+
+
+def _run_lists(case):
+    """(setter, runs, root id) for the run list of the build phase and of every later phase"""
+    def set0(c, rs):
+        c["runs"] = rs
+    out = [(set0, case["runs"], case["tree"][0])]
+    for k, ph in enumerate(case.get("phases", [])):
+        def setk(c, rs, k=k):
+            c["phases"] = c["phases"][:k] + [dict(c["phases"][k], runs=rs)] + c["phases"][k + 1:]
+        out.append((setk, ph["runs"], ph["root"]))
+    return out
+
+
 def shrink_candidates(prop, case):
-    runs = case["runs"]
-    if len(runs) > 1:
-        for k in range(len(runs)):
+    phases = case.get("phases", [])
+    if phases:
+        c = dict(case)
+        c.pop("phases")
+        yield c
+        yield dict(case, phases=phases[:-1]) if len(phases) > 1 else dict(case, phases=[])
+        for k, ph in enumerate(phases):
+            if any(e[0] == "read" for e in ph["edits"]):
+                c = _refresh(dict(case, phases=phases[:k] + [dict(ph, edits=[e for e in ph["edits"] if e[0] != "read"])]
+                                  + phases[k + 1:]))
+                if c:
+                    yield c
+            for j in range(len(ph["edits"])):
+                c = _refresh(dict(case, phases=phases[:k] + [dict(ph, edits=ph["edits"][:j] + ph["edits"][j + 1:])]
+                                  + phases[k + 1:]))
+                if c:
+                    yield c
+    total_runs = sum(len(rs) for _, rs, _ in _run_lists(case))
+    for setter, runs, _ in _run_lists(case):
+        if runs and total_runs > len(runs):
             c = dict(case)
-            c["runs"] = [runs[k]]
+            setter(c, [])
             yield c
+        if len(runs) > 1:
+            for k in range(len(runs)):
+                c = dict(case)
+                setter(c, [runs[k]])
+                yield c
     if case.get("attrs"):
         c = dict(case)
         c.pop("attrs")
@@ -841,60 +1275,75 @@ def shrink_candidates(prop, case):
         yield dict(case, build=base_build)
     base_cls = "Node" if case["kind"] == "rose" else "BinaryNode"
     if case["cls"] != base_cls and case["cls"] not in ("BaseNode", "SubBase", "EqBase"):
-        yield dict(case, cls=base_cls)
+        c = _refresh(dict(case, cls=base_cls))
+        if c:
+            yield c
     nodes = nodes_of(case)
-    starts = {r["start"] for r in runs}
+    used = {r["start"] for _, rs, _ in _run_lists(case) for r in rs}
+    for ph in phases:
+        used.add(ph["root"])
+        for e in ph["edits"]:
+            used.update(x for x in e[1:3] if isinstance(x, int) and not isinstance(x, bool))
+            if e[0] == "setchildren":
+                used.update(x for x in e[2] if x is not None)
     root = nodes[0][0]
     for i, _, _, sub in nodes:
         leaf = (not sub[1]) if case["kind"] == "rose" else (sub[1] is None and sub[2] is None)
-        if leaf and i != root and i not in starts:
-            c = dict(case)
-            c["tree"] = _remove_leaf(case, i)
-            yield c
-    for k, r in enumerate(runs):
-        for key in ("f", "s"):
-            if r[key] is not None:
-                c = dict(case)
-                c["runs"] = runs[:k] + [dict(r, **{key: None})] + runs[k + 1:]
+        if leaf and i != root and i not in used:
+            c = _refresh(dict(case, tree=_remove_leaf(case, i)))
+            if c:
                 yield c
-                for j in range(len(r[key])):
-                    c = dict(case)
-                    c["runs"] = runs[:k] + [dict(r, **{key: r[key][:j] + r[key][j + 1:]})] + runs[k + 1:]
-                    yield c
-        if r["m"]:
-            c = dict(case)
-            c["runs"] = runs[:k] + [dict(r, m=0)] + runs[k + 1:]
-            yield c
-        if r.get("pt", "bool") != "bool" or r.get("call", "kw") != "kw":
-            c = dict(case)
-            c["runs"] = runs[:k] + [dict(r, pt="bool", call="kw")] + runs[k + 1:]
-            yield c
-        if r["start"] != root:
-            c = dict(case)
-            c["runs"] = runs[:k] + [dict(r, start=root)] + runs[k + 1:]
-            yield c
+    for setter, runs, root_ in _run_lists(case):
+        for k, r in enumerate(runs):
+            def with_run(r2):
+                c = dict(case)
+                setter(c, runs[:k] + [r2] + runs[k + 1:])
+                return c
+            for key in ("f", "s"):
+                if r[key] is not None:
+                    yield with_run(dict(r, **{key: None}))
+                    for j in range(len(r[key])):
+                        yield with_run(dict(r, **{key: r[key][:j] + r[key][j + 1:]}))
+            if r["m"]:
+                yield with_run(dict(r, m=0))
+            if r.get("pt", "bool") != "bool" or r.get("call", "kw") != "kw":
+                yield with_run(dict(r, pt="bool", call="kw"))
+            if r["start"] != root_:
+                yield with_run(dict(r, start=root_))
 
 
 def size(case):
     base_build = "ctor_children" if case["kind"] == "rose" else "ctor_lr"
-    return (2 * len(case.get("attrs") or {}) + (2 if case.get("build", base_build) != base_build else 0)
-            + (1 if case["cls"] not in ("Node", "BinaryNode", "BaseNode") else 0)) + 3 * len(nodes_of(case)) + sum(
-        4 + (0 if r["f"] is None else 1 + len(r["f"])) + (0 if r["s"] is None else 1 + len(r["s"]))
-        + (1 if r["m"] else 0) + (1 if r["start"] != case["tree"][0] else 0)
-        + (1 if r.get("pt", "bool") != "bool" else 0) + (1 if r.get("call", "kw") != "kw" else 0) for r in case["runs"])
+    sz = (2 * len(case.get("attrs") or {}) + (2 if case.get("build", base_build) != base_build else 0)
+          + (1 if case["cls"] not in ("Node", "BinaryNode", "BaseNode") else 0)) + 3 * len(nodes_of(case))
+    for _, runs, root_ in _run_lists(case):
+        sz += sum(4 + (0 if r["f"] is None else 1 + len(r["f"])) + (0 if r["s"] is None else 1 + len(r["s"]))
+                  + (1 if r["m"] else 0) + (1 if r["start"] != root_ else 0)
+                  + (1 if r.get("pt", "bool") != "bool" else 0) + (1 if r.get("call", "kw") != "kw" else 0) for r in runs)
+    for ph in case.get("phases", []):
+        sz += 3 + sum(1 if e[0] == "read" else 4 + (len(e[2]) if e[0] == "setchildren" else 0) for e in ph["edits"])
+    return sz
 
 
 def nontrivial(prop, case, obs):
-    return len(nodes_of(case)) >= 3 and any(len(o["pre"]) >= 2 for o in obs)
+    return len(nodes_of(case)) >= 3 and any(len(o["pre"]) >= 2 for ph in obs for o in ph)
 
 
 def sample(prop, case, obs):
     return {"kind": case["kind"], "class": case["cls"], "build": case.get("build"), "attrs": case.get("attrs"),
-            "tree": case["tree"], "runs": case["runs"], "yielded": obs}
+            "tree": case["tree"], "runs": case["runs"], "phases": case.get("phases"), "yielded": obs}
 
 
 def rule(prop):
-    return ("trees built in 10 (binary: 11) construction styles (constructor children=/parent=/left=/right=, children setter with ONE "
+    return ("HISTORIES (about 40% of the random cases with >= 3 nodes, plus corpus): build, run all iterators, then 1-2 groups of 1-3 "
+            "structural edits (move a node up/down/sideways with parent= / >> / << / append, detach, one children assignment "
+            "taking several children of ONE donor in order / every other one, left/right/children setters on binary nodes, "
+            "del children, sort) interleaved with reads of depth / max_depth / root / node_path / siblings / ... (depth, root, "
+            "max_depth checked against the harness' shadow), after each group the links must equal the shadow's and all "
+            "iterators run again (a max_depth run guaranteed before and after) on the edited tree, possibly on a detached or "
+            "re-rooted part, and are compared with the model of the edited tree; "
+            "trees built in 14 (binary: 11) construction styles (incl. 4 'regroup' styles: a node first gets children and "
+            "grandchildren in one list, then every child takes its own children from that donor in one assignment; constructor children=/parent=/left=/right=, children setter with ONE "
             "caller-owned list re-used for every node / tuples / reassignment of the reversed list, left/right setters, parent "
             "setter, >>, <<, append, extend; the caller's list is modified afterwards) and required to have the intended links; "
             "nodes optionally carry user attributes named like built-in properties or their affixes (depth, max_depth, is_leaf, "
@@ -918,16 +1367,24 @@ def explain(prop, case, obs, flags):
     from ._base import explain as base
     msg = base(prop, case, obs, flags)
     if isinstance(obs, list):
-        if any(isinstance(o, dict) and o.get("misbuilt") for o in obs):
-            msg += ("; the tree built with construction style '%s' does not have the intended links (a node-setter "
-                    "problem that the traversals expose)" % case.get("build"))
-        if any(isinstance(o, dict) and o.get("mutated") for o in obs):
-            msg += "; the links of the input tree changed while it was iterated (nodes %s)" % obs[0].get("mutated")
-        for o in obs:
-            for a in (o.get("alts") or []) if isinstance(o, dict) else []:
-                keys = sorted(k for k in OBS_KEYS if a[k] != o[k])
-                msg += ("; observation mode '%s' differs from reading each item as it is yielded, for: %s"
-                        % (a["mode"], ", ".join(keys)))
+        for k, ph in enumerate(obs):
+            if not isinstance(ph, list):
+                continue
+            where = "as built" if k == 0 else "after edit group %d" % k
+            for o in ph:
+                if not isinstance(o, dict):
+                    continue
+                if o.get("misbuilt"):
+                    msg += ("; %s the tree does not have the intended links (construction style '%s'; a node-setter problem "
+                            "that the traversals expose)" % (where, case.get("build")))
+                if o.get("misread"):
+                    msg += "; %s: reading %s gave a wrong value" % (where, o["misread"])
+                if o.get("mutated"):
+                    msg += "; %s: the links of the tree changed while it was iterated (nodes %s)" % (where, o["mutated"])
+                for a in o.get("alts") or []:
+                    keys = sorted(key for key in OBS_KEYS if a[key] != o[key])
+                    msg += ("; %s: observation mode '%s' differs from reading each item as it is yielded, for: %s"
+                            % (where, a["mode"], ", ".join(keys)))
     return msg
 
 
@@ -945,6 +1402,9 @@ def partial_clauses(prop):
         "makes no claim; the generators read the links when they are advanced)",
         "not observed: the container type of a group (tuple) and whether two groups are distinct objects; only their contents "
         "after full materialisation",
+        "restricted: subclasses with value equality (__eq__/__hash__ by name) are only built / edited so that one child list "
+        "never holds two equal nodes, and max_depth reads are not checked for them: the unchanged setters use list.index / "
+        "list.remove (by ==) and `descendants` filters with `!= self` (witnesses reported to the coordinator)",
         "outside the model: negative or non-integer max_depth, DAGNode arguments (preorder_iter accepts them), node subclasses "
         "whose instances can be falsy (__bool__/__len__: all seven iterators test `if tree` / `if _child` to skip empty binary "
         "slots and therefore silently drop falsy nodes - witness reported to the coordinator), user attributes that shadow "
